@@ -234,7 +234,7 @@ def plan(tier, seed):
     NS = 64
     for k in range(NS):
         if not q or k % 8 == seed % 8:
-            jobs.append(('names', k, NS))
+            jobs.append(('names', k, NS, q))
     return jobs
 
 
@@ -299,9 +299,9 @@ def run_job(job, T):
             signal.signal(signal.SIGALRM, old)
         T.sample('magnitude', {'doc': doc[:60]})
     elif kind == 'names':
-        _, k, ns = job
+        _, k, ns, quick_ = job
         T.count('module_names', len(NAMES) if k == 0 or True else 0)
-        kinds = [G.KINDS[0], G.KINDS[3]]
+        kinds = [G.KINDS[0], G.KINDS[3]] if quick_ else G.KINDS
         doc = None
         for i, name in enumerate(NAMES):
             if i % ns != k:
@@ -309,7 +309,7 @@ def run_job(job, T):
             for prefix in G.PY_PREFIX:
                 tag = G.tag_text(prefix + name)
                 for kn, ktext in kinds:
-                    for c in ('root', 'map-key'):
+                    for c in (('root', 'map-key') if quick_ else ('root', 'map-key', 'aliased', 'merge-overridden')):
                         doc = G.in_context(c, '%s %s' % (tag, ktext))
                         check_doc(T, 'module-names', {'doc': doc, 'tag': tag, 'kind': kn, 'context': c}, doc, 'noncore', profile=False, prime=PRIME_FULL)
         if doc:
